@@ -7,7 +7,7 @@ VERIF = os.path.dirname(HERE)
 
 CLAIMS = {
     'C01': ('writer/reader frame-layout agreement with the spec layout, codec pairing per encoding, scratch-buffer hygiene, whole-frame yields, length-bounded views and decoder phase transitions — decided on every path / table row of the MIR. Byte equality of a round trip over all inputs and chunkings is NOT decided.', 'MIR table extraction + dominance/must-pass rules (custom rustc_private driver)'),
-    'C02': ('status-propagation discipline in tonic itself: no handler/decoder error is dropped on the server, single-trailers typestate of the encoder, clean end-of-stream on the client only behind the trailers/HTTP-status gate, the Trailers-Only status read unconditionally, codec pairing of the compressed path. End-to-end equality under arbitrary HTTP/2 fragmentation (hyper/h2) is NOT decided.', 'MIR data-origin + typestate rules'),
+    'C02': ('status-propagation discipline in tonic itself: no handler/decoder error is dropped on the server, single-trailers typestate of the encoder, clean end-of-stream on the client only behind the trailers/HTTP-status gate, the Trailers-Only status read unconditionally, codec pairing of the compressed path, the grpc-web trailer writer keeps one line per value. End-to-end equality under arbitrary HTTP/2 fragmentation (hyper/h2) is NOT decided.', 'MIR data-origin + typestate rules'),
     'C03': ('request pseudo-header/header constants, response content-type, prefix layout, flag in {0,1}, announced-encoding table, exactly-one-trailers typestate, client emits no trailers, the fallback of the router answers an unknown path as a gRPC response. Validity of compressed payload bytes is NOT decided.', 'MIR constant/table extraction + dominance rules'),
     'C04': ('the four status-code tables, the HTTP-status and HTTP/2-reason tables equal the spec tables row by row (exhaustive over rows); percent-encode set and base64 engines by constant evaluation; every potential panic site reachable from the header reader is enumerated and must be discharged; the Trailers-Only status is read unconditionally and nothing is read from the body after the trailers. Equality for all Unicode messages is NOT decided (library behaviour).', 'MIR decision-table extraction vs spec tables; panic-site reachability'),
     'C05': ('every header-token -> encoding arm is guarded by the matching enabled-set test; refusal path builds UNIMPLEMENTED + accept list; send/accept field plumbing on all handlers and the client; flag-1-without-encoding -> INTERNAL; who-may-write: grpc-encoding / grpc-accept-encoding are written only at the three negotiation sites of the library crates of the workspace.', 'MIR decision rows + edge guards + field-origin plumbing + who-may-write over all library crates'),
@@ -20,7 +20,7 @@ CLAIMS = {
     'C12': ('URI/method/version captured from and restored to the same request, SanitizeHeaders::No, inner service called only on the Ok arm, reject arm yields into_http + empty body whose status headers are written whole; Request::into_http(No) hands the metadata on untouched; compile-fail witnesses that an interceptor is a function of Request<()> (cannot touch the body).', 'MIR data-origin + edge-guard rules + rustdoc compile_fail witnesses'),
     'C13': ('ordering/pairing in the serve loop and connection task (signal -> send -> drop own receiver -> await closed; graceful_shutdown not abort; nothing accepted after send). Behaviour under every signal placement relies on hyper/tokio and is NOT decided.', 'MIR must-pass-through / reachability on pre-transform coroutine CFGs'),
     'C14': ('typestate proof over Reconnect::poll_ready/call (Ready(Ok) => Connected or error pending; error handed off by take; failure resets to Idle; eager first failure returned), ConnectError -> UNAVAILABLE; every tonic layer of the client stack forwards each call to its inner service; the discovery stream of the balanced channel forwards every change. tower Buffer / hyper lifetimes are NOT decided.', 'MIR typestate interpretation + must-forward rule over the client stack layers'),
-    'C15': ('TLS wiring: https => TLS-or-error (no plaintext path), roots only from configured sources, no verifier override anywhere, domain flow, ALPN pushed and checked unless assume_http2, client-auth verifier shape, TLS accept precedes new_tls_io. rustls verification itself is NOT decided.', 'MIR edge-guard / must-pass / who-may-call rules under tls-ring'),
+    'C15': ('TLS wiring: https => TLS-or-error (no plaintext path), roots only from configured sources, no verifier override anywhere, domain flow, ALPN pushed and checked unless assume_http2, every connector built for the URI of this call (none cached across endpoints), client-auth verifier shape, TLS accept precedes new_tls_io. rustls verification itself is NOT decided.', 'MIR edge-guard / must-pass / who-may-call rules under tls-ring'),
     'C16': ('dispatch table (POST/405/400/pass-through), content-type tables, accept-vs-content-type encoding flow, trailers-frame layout (0x80, BE length, every entry), leftover-at-EOF => error. Byte equality for all chunkings is NOT decided.', 'MIR decision rows + constant extraction'),
     'C17': ('reader/writer trailer grammar agreement (split at first colon only, multi-valued append), shared frame-flag constants, no re-poll after inner end, clean end only with empty residue.', 'MIR call-identity + loop reachability rules'),
     'C18': ('all map access under the lock, update = send on the stored sender, check = current value of stored receiver, watch = current-value-first stream of a clone, clear = remove, "" -> SERVING default, NOT_FOUND on both paths. Interleavings (tokio watch/RwLock semantics) are NOT decided.', 'MIR origin + call-identity rules'),
